@@ -390,6 +390,27 @@ func c10Case(t *core.T, blk c10Block, tr c10Transport, kn string, n int, pat c10
 	var encKey, decKey interface{}
 	direct := bytes.Repeat([]byte{0}, blk.lib.KeySize())
 	harness.NewCtr("directkey" + blk.name).Read(direct)
+	// every key of the right size is a key: a few lengths use structured keys instead of the pseudo-random one
+	switch n {
+	case 2:
+		direct = bytes.Repeat([]byte{0}, blk.lib.KeySize()) // all zero
+	case 3:
+		direct = bytes.Repeat([]byte{0xFF}, blk.lib.KeySize())
+	case 4:
+		copy(direct[8:16], direct[0:8]) // first two 8-byte parts equal (for 3DES: K1 == K2)
+	case 5:
+		if len(direct) >= 24 {
+			copy(direct[16:24], direct[8:16]) // K2 == K3
+		}
+	case 6:
+		for i := range direct {
+			direct[i] = byte(i) // ascending bytes (weak parity patterns for DES)
+		}
+	case 7:
+		if len(direct) >= 24 {
+			copy(direct[16:24], direct[0:8]) // two-key 3DES: K1 || K2 || K1
+		}
+	}
 	var enc xmlenc.Encrypter = blk.lib
 	if tr.mk != nil {
 		kp = samlgen.Key(kn)
@@ -534,6 +555,29 @@ func c10Case(t *core.T, blk c10Block, tr c10Transport, kn string, n int, pat c10
 			}
 		}
 	}
+	// (b4) the same reference ciphertext written with other namespace prefixes (default namespace, e:/dsig:, enc:) - the names are
+	// what they are by their namespace, not by their prefix
+	if err == nil && p == "" && (n <= 1 || n == 16 || n == 33) {
+		for _, style := range []string{"other-prefixes", "default-namespace-on-KeyInfo", "all-default-namespaces"} {
+			w := refEl.Copy()
+			reprefix(w, style)
+			ww, werr := rewire(w)
+			if werr != nil {
+				continue
+			}
+			var got4 []byte
+			e4, p4 := guard(func() error { var e error; got4, e = xmlenc.Decrypt(dk, ww); return e })
+			t.Impl(1)
+			switch {
+			case p4 != "":
+				t.Fail(fk("lib-decrypts-ref", "panic-on-other-prefixes"), "Decrypt panicked on the ciphertext written with %s: %s", style, p4)
+			case e4 != nil:
+				t.Fail(fk("lib-decrypts-ref", "error-on-other-prefixes"), "the same ciphertext written with %s is refused: %v", style, e4)
+			case !bytes.Equal(got4, pt):
+				t.Fail(fk("lib-decrypts-ref", "mismatch-on-other-prefixes"), "ciphertext written with %s decrypts to different plaintext", style)
+			}
+		}
+	}
 	t.Compared()
 	if t.Failed() {
 		t.Outcome("fails")
@@ -552,4 +596,40 @@ func trunc(b []byte, n int) []byte {
 		return b[:n]
 	}
 	return b
+}
+
+// reprefix rewrites the namespace prefixes of an xmlenc element tree without changing any expanded name.
+func reprefix(root *etree.Element, style string) {
+	nsOf := map[string]string{"xenc": xenc.NSXenc, "ds": xenc.NSDsig, "xenc11": "http://www.w3.org/2009/xmlenc11#"}
+	newPfx := map[string]string{"xenc": "e", "ds": "dsig", "xenc11": "e11"}
+	var walkEl func(el *etree.Element)
+	walkEl = func(el *etree.Element) {
+		old := el.Space
+		uri, known := nsOf[old]
+		// drop prefix declarations; they are re-declared where used
+		var keep []etree.Attr
+		for _, a := range el.Attr {
+			if a.Space == "xmlns" || (a.Space == "" && a.Key == "xmlns") {
+				continue
+			}
+			keep = append(keep, a)
+		}
+		el.Attr = keep
+		if known {
+			switch {
+			case style == "other-prefixes":
+				el.Space = newPfx[old]
+				el.CreateAttr("xmlns:"+newPfx[old], uri)
+			case style == "all-default-namespaces", style == "default-namespace-on-KeyInfo" && uri == xenc.NSDsig:
+				el.Space = ""
+				el.CreateAttr("xmlns", uri)
+			default:
+				el.CreateAttr("xmlns:"+old, uri)
+			}
+		}
+		for _, ch := range el.ChildElements() {
+			walkEl(ch)
+		}
+	}
+	walkEl(root)
 }
